@@ -10,6 +10,10 @@ R = random.Random(20260929)
 NAMES = ["zeta", "alpha", "mid", "b2", "yak", "core", "x9", "delta", "omega", "aa", "quoter", "hedger", "noise", "w", "k1", "beta",
          "_bg", "_b2", "__w", "r#type", "Upper"]
 N_SHAPES = 24
+# attributes and doc comments an agent field may carry: none of them changes what the derive must do
+DOCS = ["/// quoters skip wide spreads", "/// ignored by the hedger", "#[doc = \"skips nothing; agents(skip) is not a thing\"]",
+        "#[allow(dead_code)]", "/// hidden liquidity; do not exclude", "#[cfg(all())]", "/// no_update days are handled upstream",
+        "/// PhantomData-free", "#[allow(unused)] /// skip"]
 
 
 def make(prefix, idx, depth, made):
@@ -74,7 +78,9 @@ def emit(kind):
             body = ", ".join(f"pub {f[0]}: {ty(f)}" for f in s["fields"])
             L.append(f"#[derive({trait})]\n#[rustfmt::skip]\npub struct {nm} {{ {body} }}")
         else:
-            body = "\n".join(f"    pub {f[0]}: {ty(f)}," for f in s["fields"])
+            def deco(f):
+                return (f"    {R.choice(DOCS)}\n" if R.random() < 0.45 else "")
+            body = "\n".join(f"{deco(f)}    pub {f[0]}: {ty(f)}," for f in s["fields"])
             L.append(f"#[derive({trait})]\npub struct {nm} {{\n{body}\n}}")
         # builder (tags in declaration preorder)
         b = [f"pub fn build_{nm}(log: &Log, next: &mut u32) -> {nm} {{"]
@@ -100,8 +106,24 @@ def emit(kind):
                 h.append(f"    hand_{t}(&mut s.{f[0]}, env, rng);")
         h.append("}")
         L.append("\n".join(h))
+    # two structs with the SAME identifier (in sibling modules) deriving the same trait with different members
+    P1 = "Probe" if kind == "agent" else "MProbe"
+    P2 = "Probe2" if kind == "agent" else "MProbe2"
+    sig = "<R: RngCore>(s: &mut Twin, env: &mut Env, rng: &mut R)" if kind == "agent" else "<R: RngCore, const M: usize, const N: usize>(s: &mut Twin, env: &mut MarketEnv<M, N>, rng: &mut R)"
+    twins = [("a", [("first", P1), ("second", P2)]), ("b", [("second", P1), ("first", P1), ("third", P2)]), ("c", [("third", P2), ("first", P1)])]
+    for tag, fs in twins:
+        body = "\n".join(f"        pub {n}: {t}," for n, t in fs)
+        builds = "\n".join(f"        let {n} = {t}::new(log, next);" for n, t in fs)
+        hands = "\n".join(f"        s.{n}.update(env, rng);" for n, t in fs)
+        L.append(f"pub mod {prefix.lower()}twin_{tag} {{\n    use super::*;\n    #[derive({trait})]\n    pub struct Twin {{\n{body}\n    }}\n"
+                 f"    pub fn build(log: &Log, next: &mut u32) -> Twin {{\n{builds}\n        Twin {{ {', '.join(n for n, _ in fs)} }}\n    }}\n"
+                 f"    pub fn hand{sig} {{\n{hands}\n    }}\n}}")
     # runner over all shapes
     run = [f"pub fn run_{kind}_shapes(seed: u64, out: &mut Vec<String>) {{"]
+    for tag, fs in twins:
+        t = " ".join(f"{'p' if ty_ in ('Probe', 'MProbe') else 'q'}{i}" for i, (_, ty_) in enumerate(fs))
+        m = f"{prefix.lower()}twin_{tag}"
+        run.append(f'    out.push(run_{kind}_shape("{prefix}Twin_{tag}", "twin", "{t}", seed, |l, n| {m}::build(l, n), |s, e, r| s.update(e, r), |s, e, r| {m}::hand(s, e, r)));')
     for nm in order:
         s = shapes[nm]
         t = tree(s, shapes, [0])
